@@ -101,6 +101,12 @@ def jobs_for(pids, root):
             prop = json.load(open(meta)).get("property")
             if prop in pids:
                 jobs.append({"kind": "patch", "id": f"seeded/{name}", "props": [prop], "root": root, "patch": patch, "expect": "violation"})
+    td = os.path.join(VERIF, "twins")
+    if os.path.isdir(td):
+        for name in sorted(os.listdir(td)):
+            patch = os.path.join(td, name, "patch.diff")
+            if os.path.exists(patch):
+                jobs.append({"kind": "patch", "id": f"twins/{name}", "props": sorted(pids), "root": root, "patch": patch, "expect": "silent"})
     return jobs
 
 
